@@ -2,6 +2,7 @@ package fn
 
 import (
 	"fmt"
+	"math"
 	"math/rand"
 	"time"
 
@@ -86,7 +87,7 @@ func c06Gen(r *rand.Rand) c06Case {
 	c := c06Case{}
 	c.APEnabled = r.Intn(4) != 0
 	c.AFEnabled = r.Intn(4) != 0
-	pairs := [][2]int32{{1, 1}, {1, 3}, {2, 5}, {0, 0}, {2, 2}}
+	pairs := [][2]int32{{1, 1}, {1, 3}, {2, 5}, {0, 0}, {2, 2}, {1, 1}, {1, 3}, {2, 5}, {0, 0}, {2, 2}, {2, math.MaxInt32}, {math.MaxInt32, math.MaxInt32}, {1000, 5000}}
 	pr := pairs[r.Intn(len(pairs))]
 	c.APMax, c.AFMax = pr[0], pr[1]
 	if r.Intn(2) == 0 {
@@ -112,6 +113,9 @@ func c06Gen(r *rand.Rand) c06Case {
 	for i := 0; i < n; i++ {
 		p := c06Pod{UpToDate: r.Intn(8) != 0, Terminating: r.Intn(10) == 0, InitC: r.Intn(6) == 0}
 		p.Restarts = []int32{0, 0, c.APMax, c.APMax + 1, c.AFMax, c.AFMax + 1}[r.Intn(6)]
+		if p.Restarts < 0 {
+			p.Restarts = math.MaxInt32 // (the limit is the largest int32: nothing is above it)
+		}
 		switch r.Intn(8) {
 		case 0, 1, 2:
 			p.Waiting = ""
